@@ -484,6 +484,107 @@ func c17bothDirections(kind string, bound int) *explore.Scenario {
 	return sc
 }
 
+// c17oneParked: one direction of the wrapped connection is parked on a live context that is never cancelled
+// (a reader nothing is sent to, or a writer whose pipe is full and whose peer never reads); an operation in
+// the OTHER direction - its context live, or cancelled by a separate thread at any point - must still return
+// and behave like the wrapped connection.  The two directions share nothing but the connection.
+func c17oneParked(kind, parked string, bound int) *explore.Scenario {
+	name := fmt.Sprintf("%s: a %s parked on a live context, the other direction operates", kind, parked)
+	packet := kind == "netctx.PacketConn"
+	sc := &explore.Scenario{Name: name, Bound: bound}
+	sc.Cfg.Horizon = 10 * time.Second
+	sc.Make = func() (func(), func(*zzvsched.Exec) (string, *explore.Violation)) {
+		var a *fakeConn
+		var nr, nw int
+		var er, ew error
+		var got string
+		rdone, wdone, cancelled := false, false, false
+		body := func() {
+			var b *fakeConn
+			capa := 4
+			if packet {
+				capa = 1
+			}
+			a, b = newFakePair(packet, capa)
+			w := wrapCtx(kind, a)
+			live, _ := zzvsched.WithCancel() // never cancelled
+			ctxO, cancelO := zzvsched.WithCancel()
+			if parked == "reader" {
+				zzvsched.GoNamed("reader", func() {
+					nr, er = w.read(live, make([]byte, 8))
+					rdone = true
+				})
+				zzvsched.GoNamed("writer", func() {
+					nw, ew = w.write(ctxO, []byte("abcd")) // the pipe has room for it
+					wdone = true
+				})
+			} else {
+				_, _ = b.Write([]byte("xy")) // waiting for the reader
+				if n, err := w.write(live, []byte("abcd")); n != 4 || err != nil {
+					panic(fmt.Sprintf("filling write returned (%d,%v)", n, err))
+				}
+				zzvsched.GoNamed("writer", func() {
+					nw, ew = w.write(live, []byte("efgh")) // pipe full, the peer never reads: parks
+					wdone = true
+				})
+				zzvsched.GoNamed("reader", func() {
+					buf := make([]byte, 8)
+					nr, er = w.read(ctxO, buf)
+					got = string(buf[:nr])
+					rdone = true
+				})
+			}
+			zzvsched.GoNamed("canceller", func() {
+				if zzvsched.Choose(2) == 1 {
+					cancelO()
+					cancelled = true
+				}
+			})
+		}
+		check := func(ex *zzvsched.Exec) (string, *explore.Violation) {
+			out := fmt.Sprintf("cancelled=%v read=(%d,%v,%v) write=(%d,%v,%v)", cancelled, nr, errShort(er), rdone, nw, errShort(ew), wdone)
+			pre := name + ": "
+			if len(ex.Panics) > 0 {
+				return out, &explore.Violation{Sig: "C17 panic", Msg: pre + "panic: " + ex.Panics[0].Value + "\n" + ex.Panics[0].Stack}
+			}
+			if ex.HorizonHit {
+				return out + " HORIZON", nil
+			}
+			if parked == "reader" {
+				if rdone {
+					return out, &explore.Violation{Sig: "C17 silent-read-result " + kind, Msg: pre + fmt.Sprintf("nothing was sent to the reader and its context is live, yet the read returned (%d, %v)", nr, er)}
+				}
+				if !wdone {
+					return out, &explore.Violation{Sig: "C17 other-direction-blocked " + kind, Msg: pre + fmt.Sprintf("the write (pipe has room, context cancelled=%v) never returned while a read is parked on the same connection: %v", cancelled, ex.Parked)}
+				}
+				flat := string(a.out.bytes)
+				for _, m := range a.out.msgs {
+					flat += string(m)
+				}
+				if !(nw == 4 && ew == nil) && !(cancelled && nw == 0 && isCtxErr(ew)) {
+					return out, &explore.Violation{Sig: "C17 write-result " + kind, Msg: pre + fmt.Sprintf("the write returned (%d, %v) (context cancelled=%v)", nw, ew, cancelled)}
+				}
+				if flat != "abcd"[:nw] {
+					return out, &explore.Violation{Sig: "C17 bytes-not-conserved " + kind, Msg: pre + fmt.Sprintf("the write reported %d bytes but the peer received %q", nw, flat)}
+				}
+			} else {
+				if wdone {
+					return out, &explore.Violation{Sig: "C17 blocked-write-result " + kind, Msg: pre + fmt.Sprintf("the pipe is full, nobody reads and the context is live, yet the write returned (%d, %v)", nw, ew)}
+				}
+				if !rdone {
+					return out, &explore.Violation{Sig: "C17 other-direction-blocked " + kind, Msg: pre + fmt.Sprintf("the read (data waiting, context cancelled=%v) never returned while a write is parked on the same connection: %v", cancelled, ex.Parked)}
+				}
+				if !(nr == 2 && er == nil && got == "xy") && !(cancelled && nr == 0 && isCtxErr(er)) {
+					return out, &explore.Violation{Sig: "C17 read-result " + kind, Msg: pre + fmt.Sprintf("the read returned (%d, %v, %q) (context cancelled=%v), want the waiting \"xy\"", nr, er, got, cancelled)}
+				}
+			}
+			return out, nil
+		}
+		return body, check
+	}
+	return sc
+}
+
 // c17closing: the "cancel(); conn.Close()" idiom - an operation is in flight, its context is cancelled and
 // the connection is closed (by this side through the wrapper, or by the peer), in either order and at every
 // point.  The operation returns, Close returns, and a later operation with a live context fails promptly
@@ -620,12 +721,13 @@ func init() {
 					out = append(out, c17concurrent(k, d, cb), c17concurrent(k, d, cb, true))
 					if d == "read" {
 						out = append(out, c17bothDirections(k, cb))
+						out = append(out, c17oneParked(k, "reader", cb), c17oneParked(k, "writer", cb))
 					}
 					out = append(out, c17closing(k, d, false, cb), c17closing(k, d, true, cb))
 				}
 			}
 			return out
 		},
-		Rule:        "for netctx.Conn, netctx.PacketConn and connctx over a scheduler-visible pipe (4-byte stream buffer with partial writes / 1-datagram queue): one context-controlled read or write whose context is cancelled by a separate thread at every possible point (before, during, after), a peer thread, then a probe operation with a live context; also two threads operating on the same wrapped connection concurrently, one context cancelled and one live (a cancellable context, or context.Background()); a read and a write on the same wrapped connection concurrently with both contexts cancelled by separate threads; an operation in flight whose context is cancelled while the connection is closed (through the wrapper or by the peer), followed by a probe on the closed connection; every interleaving within the deviation bound (thorough: unbounded, the whole interleaving space is closed by the state cache)",
+		Rule:        "for netctx.Conn, netctx.PacketConn and connctx over a scheduler-visible pipe (4-byte stream buffer with partial writes / 1-datagram queue): one context-controlled read or write whose context is cancelled by a separate thread at every possible point (before, during, after), a peer thread, then a probe operation with a live context; also two threads operating on the same wrapped connection concurrently, one context cancelled and one live (a cancellable context, or context.Background()); a read and a write on the same wrapped connection concurrently with both contexts cancelled by separate threads; one direction parked for good on a live context (silent peer / full pipe) while the other direction's operation, its context live or cancelled at any point, must still return with the wrapped connection's result; an operation in flight whose context is cancelled while the connection is closed (through the wrapper or by the peer), followed by a probe on the closed connection; every interleaving within the deviation bound (thorough: unbounded, the whole interleaving space is closed by the state cache)",
 		Assumptions: []string{"the wrapped connection is the harness's fake with exact deadline semantics (a passed deadline fails the blocked and every later operation until reset)"}})
 }
